@@ -405,6 +405,38 @@ class _ConstExtractor(ast.NodeTransformer):
         return node
 
 
+class _KwToPositional(ast.NodeTransformer):
+    """constructor calls of Field / Mesh / Region pass their leading keyword arguments positionally where the keyword is the
+    next positional parameter (`Field(mesh, nvdim=3, value=v)` -> `Field(mesh, 3, v)`)"""
+    # positional-or-keyword parameters only (Mesh.__init__ is keyword-only)
+    SIGS = {"Field": ["mesh", "nvdim", "value", "norm", "vdims", "dtype", "unit", "valid", "vdim_mapping"],
+            "Region": ["p1", "p2", "dims", "units", "tolerance_factor"]}
+
+    def __init__(self):
+        self.cls = []
+
+    def visit_ClassDef(self, node):
+        self.cls.append(node.name)
+        self.generic_visit(node)
+        self.cls.pop()
+        return node
+
+    def visit_Call(self, node):
+        self.generic_visit(node)
+        f = ast.unparse(node.func)
+        name = None
+        if f in ("df.Field", "df.Region"):
+            name = f[3:]
+        elif f in ("self.__class__", "cls") and self.cls and self.cls[-1] in self.SIGS:
+            name = self.cls[-1]
+        if name is None or any(isinstance(a, ast.Starred) for a in node.args) or any(k.arg is None for k in node.keywords):
+            return node
+        sig = self.SIGS[name]
+        while node.keywords and len(node.args) < len(sig) and node.keywords[0].arg == sig[len(node.args)]:
+            node.args.append(node.keywords.pop(0).value)
+        return node
+
+
 def _apply(cls):
     def run(repo_root):
         out = {}
@@ -420,7 +452,7 @@ def _apply(cls):
 
 
 # the rewrites every check must survive (a failure fails the thorough tier)
-GATED = {"unnest-else", "nest-else", "split-guards", "reverse-keywords", "hoist-arguments", "annotate", "log-entry", "extract-constants"}
+GATED = {"unnest-else", "nest-else", "split-guards", "reverse-keywords", "hoist-arguments", "annotate", "log-entry", "extract-constants", "positional-ctor-args"}
 EXTRA.update({"unnest-else": _apply(_ElseUnnester), "nest-else": _apply(_ElseNester), "split-guards": _apply(_GuardSplitter),
               "reverse-keywords": _apply(_KwReverser), "hoist-arguments": _apply(_ArgHoister),
-              "annotate": _apply(_Annotator), "log-entry": _apply(_EntryLogger), "extract-constants": _apply(_ConstExtractor)})
+              "annotate": _apply(_Annotator), "log-entry": _apply(_EntryLogger), "extract-constants": _apply(_ConstExtractor), "positional-ctor-args": _apply(_KwToPositional)})
